@@ -78,6 +78,72 @@ pub open spec fn is_perm_of<T>(a: Seq<T>, b: Seq<T>, p: Seq<int>) -> bool {
     &&& forall|i: int| 0 <= i < b.len() ==> 0 <= #[trigger] p[i] < a.len() && b[i] == a[p[i]]
 }
 
+/// the legs whose disposal date lies in tax year y, in matcher order (C07.slice)
+pub open spec fn legs_in_year(s: Seq<MatchResult>, y: int) -> Seq<MatchResult>
+    decreases s.len()
+{
+    if s.len() == 0 { Seq::<MatchResult>::empty() } else {
+        let r = legs_in_year(s.drop_last(), y);
+        if in_tax_year(s.last().disposal_date.d(), y) { r.push(s.last()) } else { r }
+    }
+}
+pub proof fn lemma_year_take_step(s: Seq<MatchResult>, i: int, y: int)
+    requires 0 <= i < s.len()
+    ensures legs_in_year(s.take(i + 1), y) == (if in_tax_year(s[i].disposal_date.d(), y) { legs_in_year(s.take(i), y).push(s[i]) } else { legs_in_year(s.take(i), y) })
+{
+    assert(s.take(i + 1).drop_last() =~= s.take(i)); assert(s.take(i + 1).last() == s[i]);
+}
+pub proof fn lemma_year_push(s: Seq<MatchResult>, m: MatchResult, y: int)
+    ensures legs_in_year(s.push(m), y) == (if in_tax_year(m.disposal_date.d(), y) { legs_in_year(s, y).push(m) } else { legs_in_year(s, y) })
+{
+    assert(s.push(m).drop_last() =~= s);
+}
+pub open spec fn year_grouped(m: Map<u16, Vec<MatchResult>>, prefix: Seq<MatchResult>) -> bool {
+    &&& forall|y: u16| #[trigger] m.contains_key(y) ==> m[y]@ == legs_in_year(prefix, y as int) && m[y]@.len() > 0
+    &&& forall|j: int| 0 <= j < prefix.len() ==> 1900 <= tax_year_of((#[trigger] prefix[j]).disposal_date.d()) <= 2100 && m.contains_key(tax_year_of(prefix[j].disposal_date.d()) as u16)
+}
+pub proof fn lemma_no_year_sub(prefix: Seq<MatchResult>, y: int)
+    requires forall|j: int| 0 <= j < prefix.len() ==> tax_year_of((#[trigger] prefix[j]).disposal_date.d()) != y
+    ensures legs_in_year(prefix, y).len() == 0
+    decreases prefix.len()
+{
+    if prefix.len() > 0 {
+        assert(tax_year_of(prefix[prefix.len() - 1].disposal_date.d()) != y);
+        assert forall|j: int| 0 <= j < prefix.drop_last().len() implies tax_year_of((#[trigger] prefix.drop_last()[j]).disposal_date.d()) != y by { assert(prefix.drop_last()[j] == prefix[j]); }
+        lemma_no_year_sub(prefix.drop_last(), y);
+    }
+}
+pub proof fn lemma_no_year_empty(prefix: Seq<MatchResult>, m: Map<u16, Vec<MatchResult>>, y: u16)
+    requires year_grouped(m, prefix), !m.contains_key(y)
+    ensures legs_in_year(prefix, y as int).len() == 0
+{
+    assert forall|j: int| 0 <= j < prefix.len() implies tax_year_of((#[trigger] prefix[j]).disposal_date.d()) != y as int by {
+        assert(m.contains_key(tax_year_of(prefix[j].disposal_date.d()) as u16));
+    }
+    lemma_no_year_sub(prefix, y as int);
+}
+/// calendar lemma (from the Kani-checked axioms): [6 Apr y, 5 Apr y+1] is exactly tax year y
+pub proof fn lemma_year_window(x: NaiveDate, y: int)
+    requires civil_valid(y, 4, 6), civil_valid(y + 1, 4, 5)
+    ensures (civil(y, 4, 6) <= x.d() <= civil(y + 1, 4, 5)) <==> tax_year_of(x.d()) == y
+{
+    ax_ymd(x);
+    let (yy, mm, dd) = (year_of(x.d()), month_of(x.d()), day_of(x.d()));
+    ax_order(yy, mm, dd, y, 4, 6);
+    ax_order(y + 1, 4, 5, yy, mm, dd);
+}
+pub proof fn lemma_apr6_year(x: NaiveDate, y: int)
+    requires civil_valid(y, 4, 6), x.d() == civil(y, 4, 6), civil_valid(y + 1, 4, 5)
+    ensures tax_year_of(x.d()) == y
+{
+    lemma_year_window(x, y);
+    ax_ymd(x);
+    ax_order(y, 4, 6, y + 1, 4, 5);
+}
+
+pub open spec fn is_pool_value(pools: Map<Seq<char>, Section104Holding>, h: Section104Holding) -> bool {
+    exists|k: Seq<char>| pools.contains_key(k) && #[trigger] pools[k] == h
+}
 /// dividends of tax year y: sums over the DIVIDEND lines dated in that year
 pub open spec fn f_div_income(y: int) -> spec_fn(GbpTransaction) -> real {
     |tx: GbpTransaction| if tx.operation is Dividend && 1900 <= tax_year_of(tx.date.d()) <= 2100 && tax_year_of(tx.date.d()) == y { tx.operation->Dividend_total_value.v() } else { 0real }
